@@ -317,6 +317,16 @@ func outerMeta(obj runtime.Object, p *corev1.Pod) {
 	case *appsv1.StatefulSet:
 		o.Spec.Selector, o.Spec.ServiceName = &metav1.LabelSelector{MatchLabels: lab}, "svc"
 		o.Spec.VolumeClaimTemplates = []corev1.PersistentVolumeClaim{{ObjectMeta: metav1.ObjectMeta{Name: "data", Annotations: ann}}}
+		// claim templates named like the template's own volumes (the StatefulSet controller would replace those volumes in
+		// the pods it creates; the template is still judged as written) and like its containers
+		for i, v := range p.Spec.Volumes {
+			if i%3 != 2 {
+				o.Spec.VolumeClaimTemplates = append(o.Spec.VolumeClaimTemplates, corev1.PersistentVolumeClaim{ObjectMeta: metav1.ObjectMeta{Name: v.Name}})
+			}
+		}
+		if len(p.Spec.Containers) > 0 {
+			o.Spec.VolumeClaimTemplates = append(o.Spec.VolumeClaimTemplates, corev1.PersistentVolumeClaim{ObjectMeta: metav1.ObjectMeta{Name: p.Spec.Containers[0].Name}})
+		}
 	case *appsv1.DaemonSet:
 		o.Spec.Selector = &metav1.LabelSelector{MatchLabels: lab}
 	case *corev1.ReplicationController:
@@ -518,10 +528,32 @@ func init() {
 	}
 }
 
+// houseExemptions hands the controller its own copies of the three lists (the harness keeps the originals for its oracles),
+// housed the ways configurations really arrive: exact-sized slices; slices with spare capacity (what append and the decoders
+// produce); windows of one backing array, each with capacity reaching into the next list.
+func houseExemptions(ns, users, rcs []string) admissionapi.PodSecurityExemptions {
+	switch (len(ns) + 3*len(users) + 5*len(rcs)) % 3 {
+	case 0:
+		return admissionapi.PodSecurityExemptions{Namespaces: append([]string(nil), ns...), Usernames: append([]string(nil), users...), RuntimeClasses: append([]string(nil), rcs...)}
+	case 1:
+		spare := func(l []string) []string {
+			if l == nil {
+				return nil
+			}
+			return append(make([]string, 0, len(l)+8), l...)
+		}
+		return admissionapi.PodSecurityExemptions{Namespaces: spare(ns), Usernames: spare(users), RuntimeClasses: spare(rcs)}
+	default:
+		flat := append(append(append(make([]string, 0, len(ns)+len(users)+len(rcs)+4), ns...), users...), rcs...)
+		a, b := len(ns), len(ns)+len(users)
+		return admissionapi.PodSecurityExemptions{Namespaces: flat[0:a], Usernames: flat[a:b], RuntimeClasses: flat[b:]}
+	}
+}
+
 func newAdmission(a *AdmitCase, ev policy.Evaluator, rec metrics.Recorder, lister admission.PodLister) *admission.Admission {
 	adm := &admission.Admission{
 		Configuration: &admissionapi.PodSecurityConfiguration{Defaults: a.Defaults,
-			Exemptions: admissionapi.PodSecurityExemptions{Namespaces: a.ExNS, Usernames: a.ExUsers, RuntimeClasses: a.ExRC}},
+			Exemptions: houseExemptions(a.ExNS, a.ExUsers, a.ExRC)},
 		Evaluator: ev, Metrics: rec, PodSpecExtractor: admission.DefaultPodSpecExtractor{},
 		NamespaceGetter: fakeNS{labels: a.NSLabels, err: a.NSErr, kind: a.NSErrKind, cancel: a.cancelRequest, meta: a.NSMeta}, PodLister: lister,
 	}
@@ -781,7 +813,7 @@ func runHistory(group []*AdmitCase, order []int) []AdmitOut {
 	lead := group[0]
 	adm := &admission.Admission{
 		Configuration: &admissionapi.PodSecurityConfiguration{Defaults: lead.Defaults,
-			Exemptions: admissionapi.PodSecurityExemptions{Namespaces: lead.ExNS, Usernames: lead.ExUsers, RuntimeClasses: lead.ExRC}},
+			Exemptions: houseExemptions(lead.ExNS, lead.ExUsers, lead.ExRC)},
 		Evaluator: h, Metrics: h, PodSpecExtractor: admission.DefaultPodSpecExtractor{}, NamespaceGetter: h, PodLister: h,
 	}
 	if err := adm.CompleteConfiguration(); err != nil {
